@@ -682,6 +682,16 @@ func (r *FnRun) resolveMod(m string, env *Env) []ModTarget {
 		return []ModTarget{{Kind: "map", Name: strings.TrimSpace(strings.TrimPrefix(m, "map "))}}
 	case strings.HasPrefix(m, "heap "):
 		return []ModTarget{{Kind: "field", Key: strings.TrimSpace(strings.TrimPrefix(m, "heap "))}}
+	case strings.HasPrefix(m, "type "):
+		var from *types.Package
+		if env != nil {
+			from = env.pkg
+		}
+		t := r.e.parseTypeName(from, strings.TrimSpace(strings.TrimPrefix(m, "type ")))
+		if t == nil {
+			panic(cerr("modifies %s: unknown type", m))
+		}
+		return []ModTarget{{Kind: "heaptype", ObjT: t}}
 	}
 	// x.f  or  *x
 	if strings.HasPrefix(m, "*") {
@@ -802,6 +812,11 @@ func (r *FnRun) applyHavoc(post, pre *State, mods []ModTarget) {
 			for _, lk := range r.typeLeafKeys(m.ObjT) {
 				old := r.e.heapArr(pre, lk.key, lk.sort)
 				post.Heap[lk.key] = tb.Store(old, tb.Add(m.Addr, tb.BVI(64, lk.off)), tb.Fresh("hv:"+lk.key, lk.sort))
+			}
+		case "heaptype":
+			for _, lk := range r.typeLeafKeys(m.ObjT) {
+				old := r.e.heapArr(pre, lk.key, lk.sort)
+				post.Heap[lk.key] = tb.Fresh("H:"+lk.key, old.Sort)
 			}
 		case "M":
 			touchM = true
